@@ -478,12 +478,17 @@ def _await_descriptor_upload(tor_protocol, onion, progress, await_all_uploads):
                     "wait_descriptor",
                     "Failed upload to {}".format(args[3])
                 )
+                if uploaded.called:
+                    return
                 if failed_uploads == attempted_uploads:
                     msg = "Failed to upload '{}' to: {}".format(
                         args[1],
                         ', '.join(failed_uploads),
                     )
                     uploaded.errback(RuntimeError(msg))
+                elif await_all and confirmed_uploads and \
+                        (len(failed_uploads) + len(confirmed_uploads)) == len(attempted_uploads):
+                    uploaded.callback(onion)
 
     # the first 'yield' should be the add_event_listener so that a
     # caller can do "d = _await_descriptor_upload()", then add the
